@@ -54,8 +54,14 @@ FIXED = dict(IntCls=["1"], BigCls=["2p32"], StrCls=["l1"])
 TWINS = dict(IntCls=["1"], BigCls=["0"], StrCls=["sp3", "sp4"])
 
 
+# texts whose whole content spells TRUE / FALSE / a reserved word / a punctuation mark: text for a VARCHAR column, the wrong type for
+# a BOOLEAN one, on both input paths
+KWTEXT = dict(IntCls=["1"], BigCls=["0"], StrCls=["kwt", "kwf", "kwl", "kwc"])
+
+
 MC = {
     "quick": [
+        C("keyword-texts", 2, 2, KWTEXT, 1, True, 2, 0, types=("BOOLEAN", "VARCHAR")),
         C("one-col-deep", 1, 1, FULL, 1, True, 2, 3),
         C("two-col", 2, 2, FULL, 2, True, 1, 2),
         C("two-col-upd", 2, 2, RED2, 1, True, 2, 1),
@@ -69,6 +75,7 @@ MC = {
         dict(C("unknown-column", 1, 2, dict(IntCls=["1"], BigCls=["0"], StrCls=["l1"]), 0, True, 2, 1, wrong=False), WithUnknown=True),
     ],
     "thorough": [
+        C("keyword-texts", 2, 3, KWTEXT, 1, True, 2, 2, types=("BOOLEAN", "VARCHAR", "INT")),
         C("one-col-deep", 1, 1, FULL, 1, True, 3, 2),
         C("one-col-life", 1, 1, FULL, 1, True, 2, 4),
         C("two-col", 2, 2, FULL, 2, True, 1, 3),
